@@ -30,7 +30,7 @@ Definition up_poll (try : bool) (u : upstream) (t : nat) (w : world) : upstream 
         let c := mk_child (us_next u) s in
         (us_advance u rest true false, UPItem c, emit (EUpPoll (UAItem (cid c))) w)
     | UPend a :: rest =>
-        (us_advance u rest false false, UPPend, emit (EUpPoll UAPend) (do_acts (Some (HTask t)) a w))
+        (us_advance u rest false false, UPPend, do_acts (Some (HTask t)) a (emit (EUpPoll UAPend) w))
     | UErr :: rest =>
         if try then (us_advance u rest false false, UPErr (TUp (us_idx u)), emit (EUpPoll (UAErr (TUp (us_idx u)))) w)
         else (us_advance u rest false false, UPPend, emit (EUpPoll UAPend) w)
